@@ -55,17 +55,18 @@ RNG = RngSeam()
 class SimClock(object):
     """Simulated wall clock; advances only when read (each now() is one tick of the behaviour)."""
 
-    BEHAVIOURS = ("steady", "frozen", "forward-jumps", "backward-jumps", "near-min", "near-max", "huge-steps")
+    # realistic misbehaviour of a wall clock: standing still, stepping back (NTP, DST), stepping forward by up to a
+    # century (an unset clock at the epoch being corrected); no dates outside 1970-2200
+    BEHAVIOURS = ("steady", "frozen", "forward-jumps", "backward-jumps", "epoch-correction", "huge-steps")
 
     def __init__(self):
         self.reset("steady", None)
 
     def reset(self, behaviour, rng):
         self.behaviour, self.rng, self.reads = behaviour, rng, 0
-        if behaviour == "near-min":
-            self.t = _dt.datetime.min + _dt.timedelta(days=2)
-        elif behaviour == "near-max":
-            self.t = _dt.datetime.max - _dt.timedelta(days=3)
+        if behaviour == "epoch-correction":
+            self.t = _dt.datetime(1970, 1, 1, 0, 0, 0)
+            self.correct_at = rng.choice([1, 1, 2, 3, 5, 17]) if rng is not None else 1
         else:
             self.t = _dt.datetime(2026, 1, 1, 0, 0, 0)
         self.first = self.t
@@ -83,12 +84,14 @@ class SimClock(object):
             step = _dt.timedelta(seconds=r.choice([0, 0.001, 1, 59, 3600, 86400 * 365, 86400 * 36500]))
         elif b == "backward-jumps":
             step = _dt.timedelta(seconds=r.choice([0.001, 1, -1, -3600, -86400 * 30, 7200]))
-        elif b == "near-min":
-            step = _dt.timedelta(seconds=r.choice([-3600, 3600, -1, 1, 0]))
-        elif b == "near-max":
-            step = _dt.timedelta(seconds=r.choice([3600, -3600, 1, -1, 0]))
+        elif b == "epoch-correction":
+            # the clock was never set (1970) and is corrected to the present at some reading
+            step = _dt.timedelta(days=20454, seconds=r.randrange(86400)) if self.reads == self.correct_at \
+                else _dt.timedelta(milliseconds=1)
         else:  # huge-steps
-            step = _dt.timedelta(days=r.choice([1, 365, 36500, 365000, 10 ** 6]))
+            step = _dt.timedelta(days=r.choice([1, 365, 3650, 36500]))
+        if self.t + step > _dt.datetime(2200, 1, 1):
+            step = _dt.timedelta(milliseconds=1)
         try:
             self.t = self.t + step
         except OverflowError:
